@@ -36,9 +36,8 @@ theorem coalesce_sound (h : List Step) (hv : ValidHist {} h) :
 /-- (i) `flush_refs_closed`, IP set / policy / profile / endpoint part: if the state upstream has
 declared is reference-closed whenever a flush happens, then after EVERY SINGLE emitted message the
 dataplane holds no dangling reference: every policy's and profile's IP sets exist, every endpoint's
-policies and profiles exist.  (The route → VTEP part of the statement is false of the current code:
-`route_vtep_not_closed`.) -/
-theorem flush_refs_closed_partial (h : List Step) (hv : ValidHist {} h) (hc : ClosedAtFlushes {} h) :
+policies and profiles exist.  (Route → VTEP: `routes_closed`; both together: `flush_refs_closed`.) -/
+theorem policy_refs_closed (h : List Step) (hv : ValidHist {} h) (hc : ClosedAtFlushes {} h) :
     ∃ s ms, execHist {} h = some (s, ms) ∧ AfterEach DP.closedMain {} ms :=
   hist_closed Inv.init (by simp [DP.closedMain]) h hv hc
 
@@ -50,42 +49,61 @@ theorem insync_not_before (evs : List AcgEvent) (a : Acg) (ms : List Msg)
   have := (acg_run (a := {}) (by simp [AcgInv]) hr).2 hm
   simpa using this
 
-/-- (i) `flush_refs_closed`, route → VTEP part, with the hypothesis that makes it true, for ALL
-histories and placements of flushes: if at every flush the declared state is route-closed and no route
-the dataplane has is re-pointed away from a VTEP that is no longer declared (`RoutesOKAtFlushes`:
-such a route must itself be no longer declared, i.e. it is removed, not updated in place), then after
-EVERY SINGLE emitted message every route's VTEP is present.  Without that hypothesis the statement is
-false of the current code: `route_vtep_not_closed`. -/
-theorem routes_closed_partial (h : List Step) (hv : ValidHist {} h) (hr : RoutesOKAtFlushes {} {} h) :
+theorem afterEach_and {P Q : DP → Prop} {d : DP} {ms : List Msg} (hp : AfterEach P d ms) (hq : AfterEach Q d ms) :
+    AfterEach (fun x => P x ∧ Q x) d ms := by
+  induction ms generalizing d with
+  | nil => exact ⟨hp, hq⟩
+  | cons m t ih => exact ⟨⟨hp.1, hq.1⟩, ih hp.2 hq.2⟩
+
+/-- (i) `flush_refs_closed`, route → VTEP part, for ALL histories and placements of flushes: if the
+declared state is route-closed at every flush, then after EVERY SINGLE emitted message every route's
+VTEP is present (flush order: route removes, VTEP adds, route adds/updates, VTEP removes — the order
+of /repo commit 5d49db3; with the previous order this was false, see the regression example below). -/
+theorem routes_closed (h : List Step) (hv : ValidHist {} h) (hr : RoutesClosedAtFlushes {} h) :
     ∃ s ms, execHist {} h = some (s, ms) ∧ AfterEach DP.closedRoutes {} ms :=
   hist_closed_routes Inv.init (by intro dst r n h1; simp at h1) h hv hr
 
-/-- the hypotheses of `routes_closed_partial` hold for a history that removes a route together with the
-VTEP it needs (and the emitted stream removes the route first) -/
-def routeRemoveHist : List Step :=
-  [Step.call (.routeUpdate "r" ⟨"a", some "n2"⟩), Step.call (.vtepUpdate "n2" "b"), Step.flush,
-   Step.call (.routeRemove "r"), Step.call (.vtepRemove "n2"), Step.flush]
+/-- (i) `flush_refs_closed`, full statement: if the declared state is reference-closed at every flush
+(IP set → policy/profile → endpoint, and route → VTEP), then after EVERY SINGLE emitted message the
+dataplane holds no dangling reference of any of these kinds. -/
+theorem flush_refs_closed (h : List Step) (hv : ValidHist {} h) (hc : ClosedAtFlushes {} h)
+    (hr : RoutesClosedAtFlushes {} h) :
+    ∃ s ms, execHist {} h = some (s, ms) ∧ AfterEach DP.closed {} ms := by
+  obtain ⟨s, ms, e1, c1⟩ := policy_refs_closed h hv hc
+  obtain ⟨s', ms', e2, c2⟩ := routes_closed h hv hr
+  rw [e1] at e2; simp only [Option.some.injEq, Prod.mk.injEq] at e2
+  obtain ⟨_, rfl⟩ := e2
+  exact ⟨s, ms, e1, afterEach_and c1 c2⟩
 
-example : ValidHist {} routeRemoveHist ∧ RoutesOKAtFlushes {} {} routeRemoveHist := by
-  refine ⟨by simp [routeRemoveHist, ValidHist, upValid], ?_⟩
-  simp only [routeRemoveHist, RoutesOKAtFlushes, upApply]
-  refine ⟨?_, ?_, ?_, ?_, trivial⟩
+/-! ### regression: the history on which the previous flush order left a route dangling -/
+
+/-- A route that needs VTEP `n2` is re-pointed (same destination) and the VTEP removed, both between
+two flushes.  Before /repo commit 5d49db3 (`Flush` sent VTEP removes before route updates) the stream
+was `…; vtep-rm n2; route-upd r` and route `r` pointed at the removed VTEP after the third message
+(oracle signature `dangling-route-vtep`).  Now the route update comes first. -/
+def routeVtepWitness : List Step :=
+  [Step.call (.routeUpdate "r" ⟨"a", some "n2"⟩), Step.call (.vtepUpdate "n2" "b"), Step.flush,
+   Step.call (.routeUpdate "r" ⟨"a", none⟩), Step.call (.vtepRemove "n2"), Step.flush]
+
+theorem route_vtep_regression :
+    (execHist {} routeVtepWitness).map (·.2) = some [Msg.vtepUpdate "n2" "b", Msg.routeUpdate "r" ⟨"a", some "n2"⟩,
+      Msg.routeUpdate "r" ⟨"a", none⟩, Msg.vtepRemove "n2"] ∧
+    ValidHist {} routeVtepWitness ∧ RoutesClosedAtFlushes {} routeVtepWitness := by
+  refine ⟨by decide, by simp [routeVtepWitness, ValidHist, upValid], ?_⟩
+  simp only [routeVtepWitness, RoutesClosedAtFlushes, upApply, DP.closedRoutes]
+  refine ⟨?_, ?_, trivial⟩
   · intro dst r n h1 h2
     simp only [fupd] at h1 ⊢
     by_cases hd : dst = "r"
     · simp only [hd, if_true, Option.some.injEq] at h1
       subst h1; simp only [Option.some.injEq] at h2; subst h2; simp
     · simp [hd] at h1
-  · intro dst r n h1; simp at h1
-  · intro dst r n h1; simp only [fupd] at h1; by_cases hd : dst = "r" <;> simp [hd] at h1
-  · intro dst r n h1 h2 _
-    simp only [fupd] at h1 ⊢
+  · intro dst r n h1 h2
+    simp only [fupd] at h1
     by_cases hd : dst = "r"
-    · simp [hd]
+    · simp only [hd, if_true, Option.some.injEq] at h1
+      subst h1; simp at h2
     · simp [hd] at h1
-
-example : (execHist {} routeRemoveHist).map (·.2) = some [Msg.vtepUpdate "n2" "b", Msg.routeUpdate "r" ⟨"a", some "n2"⟩,
-    Msg.routeRemove "r", Msg.vtepRemove "n2"] := by decide
 
 /-- Closure hypothesis discharged on the resolver side, for histories with ARBITRARY sync-status
 sequences (status regressions after in-sync included; `Event.status` is just another event of the
@@ -107,55 +125,10 @@ theorem status_latch_refs_live (K : PolicyKey → Prop) (hK : C03.KeyU K) (hist 
   rw [(C03.tables_append_flush hist).2.1] at t2
   rw [← t2]; exact h
 
-/-! ### the route → VTEP part of (i) is FALSE of the current code -/
-
-/-- A route that needs VTEP `n2` is re-pointed (same destination) and the VTEP removed, both between
-two flushes. -/
-def routeVtepWitness : List Step :=
-  [Step.call (.routeUpdate "r" ⟨"a", some "n2"⟩), Step.call (.vtepUpdate "n2" "b"), Step.flush,
-   Step.call (.routeUpdate "r" ⟨"a", none⟩), Step.call (.vtepRemove "n2"), Step.flush]
-
-/-- Negation of the full-strength (i) for routes: a protocol-respecting history whose declared state
-is fully reference-closed at both flushes, and yet the emitted stream
-`vtep-upd n2; route-upd r→n2; vtep-rm n2; route-upd r` leaves route `r` pointing at the removed
-VTEP after the third message (`Flush` sends VTEP removes before route updates).  Reproduced on the
-real EventSequencer by the harness oracle (signature `dangling-route-vtep-until-route-update`). -/
-theorem route_vtep_not_closed :
-    ValidHist {} routeVtepWitness ∧ FullyClosedAtFlushes {} routeVtepWitness ∧
-    ∃ s ms, execHist {} routeVtepWitness = some (s, ms) ∧ ¬ AfterEach DP.closed {} ms := by
-  refine ⟨by simp [routeVtepWitness, ValidHist, upValid], ?_, ?_⟩
-  · simp only [routeVtepWitness, FullyClosedAtFlushes, upApply, DP.closed, DP.closedMain, DP.closedRoutes]
-    refine ⟨⟨⟨by simp, by simp, by simp⟩, ?_⟩, ⟨⟨by simp, by simp, by simp⟩, ?_⟩, trivial⟩
-    · intro dst r n h1 h2
-      simp only [fupd] at h1 ⊢
-      by_cases hd : dst = "r"
-      · simp only [hd, if_true, Option.some.injEq] at h1
-        subst h1; simp only [Option.some.injEq] at h2; subst h2; simp
-      · simp [hd] at h1
-    · intro dst r n h1 h2
-      simp only [fupd] at h1
-      by_cases hd : dst = "r"
-      · simp only [hd, if_true, Option.some.injEq] at h1
-        subst h1; simp at h2
-      · simp [hd] at h1
-  · have he : (execHist {} routeVtepWitness).map (·.2) = some [Msg.vtepUpdate "n2" "b", Msg.routeUpdate "r" ⟨"a", some "n2"⟩,
-        Msg.vtepRemove "n2", Msg.routeUpdate "r" ⟨"a", none⟩] := by decide
-    cases hx : execHist {} routeVtepWitness with
-    | none => simp [hx] at he
-    | some r =>
-      obtain ⟨s, ms⟩ := r
-      simp only [hx, Option.map_some, Option.some.injEq] at he
-      subst he
-      refine ⟨s, _, rfl, ?_⟩
-      intro h
-      simp only [AfterEach, DP.apply] at h
-      have := h.2.2.2.1.2 "r" ⟨"a", some "n2"⟩ "n2" (by simp [fupd]) rfl
-      simp [fupd] at this
-
 /-! ### non-vacuity -/
 
 /-- A non-trivial history satisfying the hypotheses of `stream_wellformed`, `coalesce_sound` and
-`flush_refs_closed_partial`: an IP set with a member, a policy using it, a profile, an endpoint using
+`policy_refs_closed`: an IP set with a member, a policy using it, a profile, an endpoint using
 both, a flush, then member churn, an in-window remove/re-add of the IP set and a policy deactivation. -/
 def sampleHist : List Step :=
   [Step.call (.ipsetAdded "s1" 0), Step.call (.memberAdded "s1" "10.0.0.1"),
